@@ -314,6 +314,8 @@ func (c *Ctx) ownership(r *Report, rule, structName, field string, allowed map[s
 		key := fmt.Sprintf("%s.%s/%s", structName, field, fn)
 		if reason, ok := allowed[fn]; ok {
 			r.ok(rule, key, fmt.Sprintf("%v — %s", kinds, reason))
+		} else if len(kinds) == 1 && kinds[0] == "read" && c.lengthOnlyReader(fn, structName, field) {
+			r.ok(rule, key, "[read] — only the length of the field is taken (len/cap): its contents are not looked at")
 		} else if reach := c.compilerReach(); len(kinds) == 1 && kinds[0] == "read" && reach != nil && !reach[fn] && c.confinedReader(fn, structName, field) {
 			// reading cannot break what the owners establish: a function outside the compiler that only indexes,
 			// measures or ranges over the field (a listing, a lookup) needs no entry in the table
@@ -483,6 +485,69 @@ func (c *Ctx) privateHelperOf(fn string, allowed map[string]string, depth int) (
 		return "", false
 	}
 	return owner, owner != ""
+}
+
+// lengthOnlyReader: every access of fn to structName.field is len(x.field) or cap(x.field): the contents are not
+// looked at.
+func (c *Ctx) lengthOnlyReader(fnName, structName, field string) bool {
+	onlyLen := func(v ssa.Value) bool {
+		refs := v.Referrers()
+		if refs == nil {
+			return false
+		}
+		for _, r := range *refs {
+			switch r := r.(type) {
+			case *ssa.DebugRef:
+			case *ssa.Call:
+				b, ok := r.Call.Value.(*ssa.Builtin)
+				if !ok || (b.Name() != "len" && b.Name() != "cap") {
+					return false
+				}
+			default:
+				return false
+			}
+		}
+		return true
+	}
+	found := false
+	for _, fn := range c.allFuncs() {
+		if ssaFuncName(fn) != fnName {
+			continue
+		}
+		for _, b := range fn.Blocks {
+			for _, ins := range b.Instrs {
+				switch ins := ins.(type) {
+				case *ssa.FieldAddr:
+					name, st := structOf(ins.X.Type())
+					if st == nil || name != structName || st.Field(ins.Field).Name() != field {
+						continue
+					}
+					found = true
+					for _, r := range *ins.Referrers() {
+						switch r := r.(type) {
+						case *ssa.DebugRef:
+						case *ssa.UnOp:
+							if r.Op != token.MUL || !onlyLen(r) {
+								return false
+							}
+						default:
+							return false
+						}
+					}
+				case *ssa.Field:
+					name, st := structOf(ins.X.Type())
+					if st == nil || name != structName || st.Field(ins.Field).Name() != field {
+						continue
+					}
+					found = true
+					if !onlyLen(ins) {
+						return false
+					}
+				}
+			}
+		}
+	}
+	return found
 }
 
 // confinedReader: every access of fn to structName.field loads the value and uses it only to index it, take its
